@@ -12,7 +12,7 @@ RULE = ('system under test: the unmodified w2c2 sources built with clang -O1 -fs
         '(expr, ctrl, calls, mem, inst, consts), the valid spec-suite modules in their original encoding, names modules (long / '
         'non-ASCII / punctuation-laden import, export and function names; name sections naming all, some or no functions, '
         'duplicates) and stress shapes (thousands of functions / locals / br_table targets / data segments, nesting depth up to '
-        '1500, operand stacks of 2000) x generated option sets (-p, -f N, -t N, -m, -g, -d arrays|gnu-ld, -c); plus, for '
+        '1500, operand stacks of 2000) x generated option sets (-p, -f N, -t N, -m, -g, -d arrays|gnu-ld, -c, -r REFERENCE with a reference module sharing some / all / no function bodies, and truncated reference files); plus, for '
         'robustness, truncations of such files: every cut 0<k<len for small modules (exhaustive) and sampled cuts for larger '
         'ones. Oracle: full module => exit 0, no signal, no sanitizer report; proper prefix => exit 0, or non-zero WITH a '
         'diagnostic on stderr, never a signal or sanitizer report. Hang guard 120 s. Non-trivial = module with an import used in '
@@ -47,9 +47,12 @@ def sections_of(b):
     return out
 
 
-def run_w2c2(wb, opts, variant='asan', name='m', timeout=120):
+def run_w2c2(wb, opts, variant='asan', name='m', timeout=120, ref=None):
     d = cexec.new_dir('t')
     try:
+        if ref is not None:
+            with open(os.path.join(d, 'ref.wasm'), 'wb') as f:
+                f.write(ref)
         tr = cexec.translate(wb, d, name, opts, variant, timeout=timeout)
         return tr
     finally:
@@ -74,17 +77,18 @@ def check_prefix(tr):
     return None
 
 
-def viol(kind_key, wb, opts, cut, tag, tr):
+def viol(kind_key, wb, opts, cut, tag, tr, ref=None):
     kind, key = kind_key
     sig = '%s:%s' % (kind, key)
     return {'signature': sig,
             'summary': '%s [%s] options=%s cut=%s: %s' % (kind, tag, ' '.join(opts), cut, key),
             'replay': {'kind': 'c10', 'wasm_hex': (wb if cut is None else wb[:cut]).hex() if len(wb) < 200000 else None,
                        'tag': tag, 'options': list(opts), 'cut': cut, 'signature': sig,
+                       'ref_hex': ref.hex() if ref is not None and len(ref) < 200000 else None,
                        'stderr': tr.err.decode(errors='replace')[-2500:] if isinstance(tr.err, bytes) else ''}}
 
 
-def minimise(wb, opts, cut, sig, is_prefix):
+def minimise(wb, opts, cut, sig, is_prefix, ref=None):
     """shrink the option list (and for full modules nothing else: the bytes are the reproducer)"""
     best = list(opts)
     i = 0
@@ -102,7 +106,9 @@ def minimise(wb, opts, cut, sig, is_prefix):
     for u in flags:
         trial = [x for x in keep if x is not u]
         o = [y for x in trial for y in x]
-        tr = run_w2c2(wb if cut is None else wb[:cut], o)
+        if '-r' in o and ref is None:
+            continue
+        tr = run_w2c2(wb if cut is None else wb[:cut], o, ref=ref)
         bad = check_prefix(tr) if is_prefix else check_full(tr)
         if bad and '%s:%s' % bad == sig:
             keep = trial
@@ -114,16 +120,16 @@ def task(wid, seed, params):
            'infra': [], 'extra': collections.Counter()}
     seen = set()
 
-    def report(bad, wb, opts, cut, tag, tr, is_prefix):
+    def report(bad, wb, opts, cut, tag, tr, is_prefix, ref=None):
         sig = '%s:%s' % bad
         if sig in seen or len(res['violations']) >= 4:
             return
         seen.add(sig)
         try:
-            opts = minimise(wb, opts, cut, sig, is_prefix)
+            opts = minimise(wb, opts, cut, sig, is_prefix, ref)
         except Exception:
             pass
-        res['violations'].append(viol(bad, wb, opts, cut, tag, tr))
+        res['violations'].append(viol(bad, wb, opts, cut, tag, tr, ref if '-r' in opts else None))
 
     for ci in range(params['ncases']):
         ch = Chooser(seed * 1000003 + ci)
@@ -136,7 +142,27 @@ def task(wid, seed, params):
             continue
         nfuncs = len(m.funcs) if m is not None else 8
         opts = f2.option_set(ch, nfuncs)
-        tr = run_w2c2(wb, opts)
+        # -r REFERENCE (static/dynamic split): a reference sharing some bodies, the module itself, or an unrelated module
+        ref = None
+        if tag != 'stress' and ch.below(3) == 0:
+            k = ch.below(4)
+            if k < 2 and m is not None and m.funcs:
+                from . import c09
+                ref = c09.make_ref(ch, m)
+                res['classes']['ref_partial'] += 1
+            elif k == 2:
+                ref = wb
+                res['classes']['ref_identical'] += 1
+            else:
+                try:
+                    m3, ref, _ = f2.any_module(Chooser(seed * 7919 + ci))
+                except Exception:
+                    ref = wb
+                if len(ref) > 200000:
+                    ref = wb
+                res['classes']['ref_unrelated'] += 1
+            opts = opts + ['-r', 'ref.wasm']
+        tr = run_w2c2(wb, opts, ref=ref)
         res['evaluations'] += 1
         res['classes']['src_' + tag.split(':')[0]] += 1
         secs = sections_of(wb)
@@ -148,8 +174,17 @@ def task(wid, seed, params):
                 res['classes']['opt' + o] += 1
         bad = check_full(tr)
         if bad:
-            report(bad, wb, opts, None, tag, tr, False)
+            report(bad, wb, opts, None, tag, tr, False, ref)
             continue
+        if ref is not None and len(ref) > 10 and ref is not wb:
+            # robustness: the reference file itself truncated (the module stays valid)
+            for k in sorted(set(1 + ch.below(len(ref) - 1) for _ in range(3))):
+                tr2 = run_w2c2(wb, opts, ref=ref[:k])
+                res['evaluations'] += 1
+                res['classes']['truncated_reference'] += 1
+                bad = check_prefix(tr2)
+                if bad:
+                    report((bad[0], 'truncated-reference:' + bad[1]), wb, opts, None, tag, tr2, True, ref[:k])
         if ci < 2:
             res['samples'].append({'source': tag, 'bytes': len(wb), 'options': opts, 'exit': tr.rc})
         # truncations
@@ -162,10 +197,11 @@ def task(wid, seed, params):
         else:
             cuts = sorted(set(1 + ch.below(len(wb) - 1) for _ in range(params['ncuts'])) | {8, 9, len(wb) - 1}) if len(wb) > 10 else []
         topts = opts if ch.below(2) else [o for o in opts if o in ('-g', '-p')]
+        tref = ref if '-r' in topts else None
         for k in cuts:
             if k <= 0 or k >= len(wb):
                 continue
-            tr = run_w2c2(wb[:k], topts)
+            tr = run_w2c2(wb[:k], topts, ref=tref)
             res['evaluations'] += 1
             res['classes']['truncation'] += 1
             inside = any(s < k < e for sid, s, e in secs)
@@ -176,7 +212,7 @@ def task(wid, seed, params):
                 res['classes']['prefix_accepted'] += 1
             bad = check_prefix(tr)
             if bad:
-                report(bad, wb, topts, k, tag, tr, True)
+                report(bad, wb, topts, k, tag, tr, True, tref)
     res['extra'] = dict(res['extra'])
     return res
 
@@ -185,7 +221,10 @@ def replay(rp):
     if rp.get('wasm_hex') is None:
         return False
     wb = bytes.fromhex(rp['wasm_hex'])
-    tr = run_w2c2(wb, rp['options'])
+    ref = bytes.fromhex(rp['ref_hex']) if rp.get('ref_hex') else None
+    if '-r' in rp['options'] and ref is None:
+        return False
+    tr = run_w2c2(wb, rp['options'], ref=ref)
     bad = check_prefix(tr) if rp.get('cut') is not None else check_full(tr)
     return bad is not None
 
